@@ -27,6 +27,10 @@ class Names:
     def fresh_entry(self, prefix):
         """entry point names: every fourth carries letters whose Unicode upper case differs from the ASCII one"""
         n = self.fresh(prefix)
+        if self.rng.random() < 0.06:
+            # long names (labels, constants and function names derived from them must carry them whole)
+            n += "_" + "_".join(self.rng.choice(["accumulate", "prefix", "sum", "histogram", "radix", "pass", "downsample", "bilateral", "upscale"])
+                                for _ in range(self.rng.randint(5, 9)))
         if self.unicode_ok and self.rng.random() < 0.25:
             n += self.rng.choice(["_gr\u00f6\u00dfe", "_\u00e9t\u00e9", "\u00df", "_\u01c6"])
         return n
@@ -65,12 +69,41 @@ def gen_consts(rng, names, n):
                 names.used.add(name.lower())
         kind = rng.choice(["i32", "u32", "f32", "bool", "i32_inferred", "f32_inferred", "u32_expr", "i32_expr",
                            "ref", "f64", "i64", "u64", "vec", "array", "f32_extreme", "i32_extreme", "neg_zero",
-                           "f32_expr", "bool_expr", "zero_scalar", "zero_vec", "neg_zero_expr", "splat"])
+                           "f32_expr", "bool_expr", "zero_scalar", "zero_vec", "neg_zero_expr", "splat",
+                           "alias_typed", "alias_zero", "int_round", "alias_vec"])
         if kind == "i32":
             v = rng.choice([0, 1, -1, 7, -12345, 2147483647, rng.randint(-10 ** 6, 10 ** 6)])
             lines.append("const %s: i32 = %d;" % (name, v))
             truth.append((name, "PI32", "(LI32 (%d)%%Z)" % v))
             ints[name] = ("i32", v)
+        elif kind == "alias_typed":
+            # declared through a WGSL alias: still a scalar constant of the aliased type
+            al, ty, prim_, lit, txt = rng.choice([("Index", "u32", "PU32", "(LU32 255%N)", "255u"), ("Real", "f32", "PF32", "(LF32 %d%%N)" % f32_bits(0.75), "0.75"),
+                                                  ("Count", "i32", "PI32", "(LI32 (-9)%Z)", "-9"), ("Flag", "bool", "PBool", "(LBool true)", "true")])
+            if ("alias %s = %s;" % (al, ty)) not in lines:
+                lines.insert(0, "alias %s = %s;" % (al, ty))
+            lines.append("const %s: %s = %s;" % (name, al, txt))
+            truth.append((name, prim_, lit))
+        elif kind == "alias_zero":
+            al, ty, prim_, lit = rng.choice([("Index", "u32", "PU32", "(LU32 0%N)"), ("Real", "f32", "PF32", "(LF32 0%N)"), ("Count", "i32", "PI32", "(LI32 0%Z)")])
+            if ("alias %s = %s;" % (al, ty)) not in lines:
+                lines.insert(0, "alias %s = %s;" % (al, ty))
+            lines.append("const %s = %s();" % (name, al))
+            truth.append((name, prim_, lit))
+        elif kind == "alias_vec":
+            if "alias Dir = vec3<f32>;" not in lines:
+                lines.insert(0, "alias Dir = vec3<f32>;")
+            lines.append(rng.choice(["const %s: Dir = Dir(0.0, 1.0, 0.0);", "const %s = Dir();", "const %s = vec4<f32>(Dir(), 1.0);"]) % name)
+        elif kind == "int_round":
+            # values whose decimal digit groups contain leading zeros
+            v = rng.choice([100000, 1000000, 1048576, 1000000000, 1000001, 10000, 16000, 131072, 2000000007 % (2 ** 31), 100100100, 1002003])
+            if rng.random() < 0.5:
+                lines.append("const %s: u32 = %du;" % (name, v))
+                truth.append((name, "PU32", "(LU32 %d%%N)" % v))
+            else:
+                sgn = rng.choice([1, -1])
+                lines.append("const %s: i32 = %d;" % (name, sgn * v))
+                truth.append((name, "PI32", "(LI32 (%d)%%Z)" % (sgn * v)))
         elif kind == "i32_inferred":
             v = rng.randint(0, 1000)
             lines.append("const %s = %d;" % (name, v))
@@ -134,11 +167,11 @@ def gen_consts(rng, names, n):
             lines.append("const %s: f64 = %rlf;" % (name, v))
             truth.append((name, "PF64", "(LF64 %d%%N)" % f64_bits(v)))
         elif kind == "i64":
-            v = rng.choice([5, 9223372036854775807, 1 << 40])
+            v = rng.choice([5, 9223372036854775807, 1 << 40, 1000000000000, -4000000000, 10 ** 18 + 1])
             lines.append("const %s: i64 = %dli;" % (name, v))
             truth.append((name, "PI64", "(LI64 (%d)%%Z)" % v))
         elif kind == "u64":
-            v = rng.choice([5, 18446744073709551615, 1 << 50])
+            v = rng.choice([5, 18446744073709551615, 1 << 50, 5000000000, 10 ** 19])
             lines.append("const %s: u64 = %dlu;" % (name, v))
             truth.append((name, "PU64", "(LU64 %d%%N)" % v))
         elif kind == "zero_scalar":
@@ -261,7 +294,7 @@ class _Sometimes:
         return self.text if self.rng.random() < 0.6 else ""
 
 
-def gen_entries(rng, names, ov_names):
+def gen_entries(rng, names, ov_names, wg_overrides=False):
     """returns (struct/decl lines, entry lines, truth)"""
     decl, ents, truth = [], [], []
     nv, nf, nc = rng.choice([(1, 1, 0), (0, 0, 1), (1, 1, 1), (2, 1, 0), (0, 2, 2), (1, 0, 0), (0, 1, 0), (2, 2, 2), (0, 0, 0),
@@ -361,7 +394,13 @@ def gen_entries(rng, names, ov_names):
     for k in range(nc):
         name = names.fresh_entry("cs_")
         dims = rng.choice([[1], [64], [8, 8], [4, 2, 3], [256, 1, 1], [1, 1, 64], [16, 16], ["WG"], [2, "WG"]])
-        wg = [d if d != "WG" else 4 for d in dims] + [1] * (3 - len(dims))
+        if wg_overrides and rng.random() < 0.35:
+            # dimensions given by overrides (of either integer type, with and without default, or an expression over one):
+            # outside C14's quantifier (naga reports 1 for them) - the module still has to compile
+            ovn = "wgo_%d" % len(ents)
+            decl.append(rng.choice(["override %s = 64;", "override %s: i32 = 2;", "override %s: u32 = 16u;", "override %s: u32;", "@id(77) override %s: i32 = 8;"]) % ovn)
+            dims = rng.choice([[ovn], [ovn, 2], [4, ovn], [ovn, ovn, 1], ["%s * 2" % ovn]])
+        wg = [d if isinstance(d, int) else (4 if d == "WG" else 1) for d in dims] + [1] * (3 - len(dims))
         ents.append("@compute @workgroup_size(%s) fn %s() { %s }" % (", ".join(str(d) for d in dims), name, use_ov))
         truth.append({"name": name, "stage": "compute", "wg": wg})
     if any("WG" in e for e in ents):
@@ -384,11 +423,11 @@ def coq_entries_truth(truth):
     return "[%s]" % names, "[%s]" % comp, "[%s]" % frag, "[%s]" % vert
 
 
-def sink(rng, n_consts=None, n_overrides=None, unicode_ok=True):
+def sink(rng, n_consts=None, n_overrides=None, unicode_ok=True, wg_overrides=False):
     names = Names(rng, unicode_ok)
     cl, ct = gen_consts(rng, names, n_consts if n_consts is not None else rng.randint(0, 8))
     ol, ot = gen_overrides(rng, names, n_overrides if n_overrides is not None else rng.choice([0, 0, 1, 2, 4, 6]))
-    dl, el, et = gen_entries(rng, names, [t["name"] for t in ot])
+    dl, el, et = gen_entries(rng, names, [t["name"] for t in ot], wg_overrides)
     wgsl = "\n".join(cl + ol + dl + el) + "\n"
     if "const WG: u32 = 4u;" in dl:
         ct = ct + [("WG", "PU32", "(LU32 4%N)")]
